@@ -31,6 +31,7 @@ ELEM_TYPES = {"double": "D", "float": "F", "int": "I", "int64_t": "L", "int16_t"
 INT_TYPES = {"int", "int64_t", "long", "long long", "int16_t", "int8_t", "char", "size_t", "unsigned long"}
 # scalar functions of easel.c called by the vector routines: C name -> (Lean name, class the generated caller needs); hand model in
 # lean/EaselModel/Vec/Model.lean, compared bit-exactly with the C function through the harness op `cmpold`
+LIBM_D = {"exp": "VInf.exp", "log": "VInf.log", "exp2": "VInf.exp2", "log2": "VNum.log2"}      # double libm calls -> class operations
 EXTERNAL = {"esl_DCompare_old": ("compareOldStatus", "VCmp"), "esl_FCompare_old": ("compareOldStatus", "VCmp")}
 LEAN_KW = c2lean.LEAN_KEYWORDS | {"rd", "wr", "loop", "s", "pure", "max", "min"}
 
@@ -67,6 +68,8 @@ class Fn:
         self.written = []       # arrays written (lean names, in first-write order)
         self.monadic = False
         self.vcmp = False       # calls esl_{D,F}Compare_old (`VCmp`)
+        self.vinf = False       # floating-point routine using negation / infinity / exp / log / exp2 (`VInf`)
+        self.vnum = False       # floating-point routine using division / log2 / `(double) n` (`VNum`)
         self.wrap = False       # uses gcc's wrap-around / truncation semantics (`CWrap`): the `return x1 - x2` comparator idiom
         self.stats = {"n_reads": 0, "n_writes": 0, "n_loops": 0, "n_ops": 0, "n_calls": 0}
 
@@ -248,8 +251,10 @@ class Fn:
         lit = self.int_literal(n)
         if lit is not None and k != "DeclRefExpr":
             if lit < 0:
-                raise Unsupported("%s: negative literal of element type" % self.where(n))
-            a = "(CElem.ofNat %d : α)" % lit
+                self.need_double(n); self.vinf = True
+                a = "(VInf.neg (CElem.ofNat %d : α))" % -lit
+            else:
+                a = "(CElem.ofNat %d : α)" % lit
         elif k == "DeclRefExpr":
             nm = n["referencedDecl"]["name"]
             if self.kind.get(nm) != "elem":
@@ -283,6 +288,46 @@ class Fn:
             out.append("let %s ← CElem.%s %s %s" % (a, {"+": "add", "-": "sub", "*": "mul"}[n["opcode"]], x, y))
             self.monadic = True; self.stats["n_ops"] += 1
             return a
+        elif self.inf_tree(n0) is not None:                          # (-)eslINFINITY = (-)INFINITY = (-)(__builtin_inff ()), widened to double
+            self.need_double(n); self.vinf = True
+            a = "(VInf.inf : α)" if self.inf_tree(n0) == 1 else "(VInf.neg (VInf.inf : α))"
+        elif k == "UnaryOperator" and n["opcode"] == "-":
+            self.need_double(n); self.vinf = True
+            x = self.elem(n["inner"][0], out)
+            a = "(VInf.neg %s)" % x
+        elif k == "BinaryOperator" and n["opcode"] == "/":
+            self.need_double(n); self.vnum = True
+            x = self.elem(n["inner"][0], out)
+            y = self.elem(n["inner"][1], out)
+            a = target or self.fresh()
+            out.append("let %s := %s / %s" % (a, x, y)); self.stats["n_ops"] += 1
+            return a
+        elif k == "ConditionalOperator":
+            self.need_double(n)
+            c = self.cond(n["inner"][0], out)
+            tl, el = [], []
+            x = self.elem(n["inner"][1], tl)
+            y = self.elem(n["inner"][2], el)
+            a = target or self.fresh()
+            out.append("let %s ← if %s then do" % (a, c))
+            out.extend("    " + l for l in tl + ["pure %s" % x])
+            out.append("  else do")
+            out.extend("    " + l for l in el + ["pure %s" % y])
+            self.monadic = True
+            return a
+        elif k == "CallExpr" and self.callee(n) in LIBM_D:
+            self.need_double(n)
+            if LIBM_D[self.callee(n)].startswith("VNum."): self.vnum = True
+            else: self.vinf = True
+            if len(n["inner"]) != 2:
+                raise Unsupported("%s: argument count of %s" % (self.where(n), self.callee(n)))
+            x = self.elem(n["inner"][1], out)
+            a = "(%s %s)" % (LIBM_D[self.callee(n)], x); self.stats["n_calls"] += 1
+        elif k == "CallExpr" and self.callee(n) in self.known and self.known[self.callee(n)].ret == "elem":
+            return self.call(n, out, want_ret=True) if not target else self.bind_as(target, self.call(n, out, want_ret=True), out)
+        elif k in ("CStyleCastExpr", "ImplicitCastExpr") and n.get("castKind") == "IntegralToFloating" and self.is_idx_expr(n["inner"][0]):
+            self.need_double(n); self.vnum = True                    # `(double) n` for a length / index
+            a = "(VNum.ofNat (%s).toNat : α)" % self.idx(n["inner"][0])
         elif k == "ImplicitCastExpr":
             raise Unsupported("%s: conversion %s to %s" % (self.where(n), n.get("castKind"), n["type"]["qualType"]))
         else:
@@ -316,6 +361,29 @@ class Fn:
             raise Unsupported("%s: wrapped integer expression of kind %s %s" % (self.where(x), k, x.get("opcode", "")))
         self.wrap = True
         return "(CWrap.toCInt %s)" % go(n)
+
+    def need_double(self, n):
+        """the floating-point forms are translated for `double` routines only: in a `float` routine the C source mixes binary32 and
+        binary64 sub-expressions, which this one-type translation does not express (those routines stay with the hand model)"""
+        if self.elemtype != "double":
+            raise Unsupported("%s: floating-point expression form in a routine over %s" % (self.where(n), self.elemtype))
+
+    def is_inf(self, n):
+        return self.inf_tree(n) == 1
+
+    def inf_tree(self, n):
+        """+1 / -1 if the expression is (a negation of) the infinity builtin under parentheses and exact float->double widening, else None"""
+        n = unwrap(n, casts=("LValueToRValue", "NoOp", "FloatingCast"))
+        if n["kind"] == "CallExpr":
+            return 1 if self.callee(n) in ("__builtin_inff", "__builtin_inf", "__builtin_huge_val", "__builtin_huge_valf") else None
+        if n["kind"] == "UnaryOperator" and n["opcode"] == "-":
+            r = self.inf_tree(n["inner"][0])
+            return None if r is None else -r
+        return None
+
+    def bind_as(self, target, atom, out):
+        out.append("let %s := %s" % (target, atom))
+        return target
 
     def cond(self, n, out):
         n = unwrap(n)
@@ -475,6 +543,8 @@ class Fn:
         sig = self.known[fn]
         self.wrap = self.wrap or getattr(sig, "wrap", False)
         self.vcmp = self.vcmp or getattr(sig, "vcmp", False)
+        self.vinf = self.vinf or getattr(sig, "vinf", False)
+        self.vnum = self.vnum or getattr(sig, "vnum", False)
         args, wr = [], []
         for a, (pn, pk) in zip(n["inner"][1:], sig.params):
             if pk == "arr":
@@ -515,7 +585,7 @@ class Fn:
                 if v.get("inner"):
                     self.assign_scalar(v["name"], v["inner"][0], lines, node=s)
             return
-        if k in ("BinaryOperator", "CompoundAssignOperator") and s.get("opcode") in ("=", "+=", "-=", "*="):
+        if k in ("BinaryOperator", "CompoundAssignOperator") and s.get("opcode") in ("=", "+=", "-=", "*=", "/="):
             op = s["opcode"]
             l = unwrap(s["inner"][0])
             rhs = s["inner"][1]
@@ -527,6 +597,13 @@ class Fn:
                 i = self.idx(l["inner"][1])
                 if op == "=":
                     v = self.elem(rhs, lines)
+                elif op == "/=":
+                    self.need_double(s); self.vnum = True
+                    cur = self.fresh()
+                    lines.append("let %s ← rd %s %s" % (cur, arr, i)); self.stats["n_reads"] += 1
+                    y = self.elem(rhs, lines)
+                    v = self.fresh()
+                    lines.append("let %s := %s / %s" % (v, cur, y)); self.stats["n_ops"] += 1
                 else:
                     cur = self.fresh()
                     lines.append("let %s ← rd %s %s" % (cur, arr, i)); self.stats["n_reads"] += 1
@@ -805,10 +882,13 @@ class Fn:
         sig.monadic = self.monadic
         sig.wrap = self.wrap
         sig.vcmp = self.vcmp
+        sig.vinf = self.vinf
+        sig.vnum = self.vnum
         return doc + "\n" + head + "\n" + "\n".join(text_lines) + "\n", sig
 
     def binders(self):
-        return ("[CWrap α] " if self.wrap else "") + ("[VCmp α] " if self.vcmp else "")
+        return (("[CWrap α] " if self.wrap else "") + ("[VCmp α] " if self.vcmp else "") +
+                ("[VInf α] " if self.vinf else "[VNum α] " if self.vnum else ""))
 
     def result(self, r):
         return r or ""
@@ -857,6 +937,9 @@ def plan():
                 vec.append(("esl_vec_%s%s" % (T, r), {"rev": "vec"}, "_inplace"))
     vec.append(("esl_vec_CReverse", None, "")); vec.append(("esl_vec_CReverse", {"rev": "vec"}, "_inplace"))
     vec += [("esl_vec_WCopy", None, ""), ("esl_vec_BCopy", None, "")]
+    # the probability / log-space routines over `double` (the `float` versions mix binary32 and binary64: hand model Vec/Model.lean)
+    vec += [("esl_vec_D%s" % r, None, "") for r in ("Norm", "Log", "Log2", "Exp", "Exp2", "LogSum", "Log2Sum", "LogNorm", "Log2Norm", "Entropy")]
+    vec += [("esl_vec_DCDF", None, ""), ("esl_vec_DCDF", {"cdf": "p"}, "_inplace"), ("esl_vec_FCDF", None, ""), ("esl_vec_FCDF", {"cdf": "p"}, "_inplace")]
     cmpf = [("qsort_%s%s" % (T, d), None, "") for d in ("Increasing", "Decreasing") for T in VEC_TYPES]
     sort = [("esl_vec_%sSort%s" % (T, d), None, "") for d in ("Increasing", "Decreasing") for T in VEC_TYPES]
     mat = [("esl_mat_%s%s" % (T, r), None, "") for r, ts in MAT_ROUTINES.items() for T in ts]
@@ -879,13 +962,13 @@ def generate(src_dir, the_plan=None):
             if not alias:
                 known[nm] = sig
             chunks.append(text)
-            infos.append({"name": t.name, "elem": t.elemtype, "wrap": t.wrap, "vcmp": t.vcmp, "params": sig.params, "writes": sig.writes, "ret": sig.ret, "monadic": t.monadic, **t.stats})
+            infos.append({"name": t.name, "elem": t.elemtype, "wrap": t.wrap, "vcmp": t.vcmp, "vinf": t.vinf or t.vnum, "params": sig.params, "writes": sig.writes, "ret": sig.ret, "monadic": t.monadic, **t.stats})
     disp = ["/-- name → translated function; arguments grouped by kind in parameter order (arrays, indices, elements);",
             "    outer `none` = unknown name / wrong arity, inner `none` = the routine faults -/",
             "def dispatch %s(name : String) (A : List (Array α)) (I : List Int) (E : List α) : Option (Option (Res α)) :=" % ("[CWrap α] " if any(i["wrap"] for i in infos) else ""),
             "  match name, A, I, E with"]
     for inf in infos:
-        if inf["vcmp"]:
+        if inf["vcmp"] or inf["vinf"]:
             continue                     # needs the floating-point class `VCmp`: the driver calls it directly at Float / Float32
         ps = inf["params"]
         pat = lambda k: "[%s]" % ", ".join(p for p, kk in ps if kk == k)
